@@ -443,14 +443,20 @@ def run_property(prop, tier, seed, scratch, a):
     outs = {}
 
     def runner(job):
-        if job.kind == "kani":
-            r, out = run_kani(job, scratch)
-        elif job.kind == "scan":
-            from scanrules import run_scan
-            r, out = run_scan(job)
-        else:
-            from rsxdrv import run_rsx
-            r, out = run_rsx(job, scratch, seed)
+        try:
+            if job.kind == "kani":
+                r, out = run_kani(job, scratch)
+            elif job.kind == "scan":
+                from scanrules import run_scan
+                r, out = run_scan(job)
+            else:
+                from rsxdrv import run_rsx
+                r, out = run_rsx(job, scratch, seed)
+        except Exception as e:  # an internal failure of the driver is inconclusive, never a crash
+            import traceback
+            r = {"job": job.id, "engine": job.kind, "bounds": job.bounds, "core": job.core, "wall_s": 0.0,
+                 "status": "error", "detail": "driver exception: %r" % (e,)}
+            out = traceback.format_exc()
         with open(os.path.join(logdir, re.sub(r"[^A-Za-z0-9_.+-]", "_", job.id)[:150] + ".log"), "w") as f:
             f.write(out)
         say("  [%s] %-70s %-8s %6.1fs" % (prop, job.id[:70], r["status"], r["wall_s"]))
